@@ -86,6 +86,9 @@ pub fn run_check(ctx: &Ctx) -> Outcome {
             check_e1(ctx, Prop::C01, &mut out, 12000, 250000);
             check_e2(ctx, Prop::C01, &[Kind::Lru, Kind::Seg, Kind::TwoQ, Kind::Arc, Kind::Wtl], &mut out);
             check_ctor_caps(ctx, &mut out);
+            // "every internal partition stays within its configured bound": the 2Q quota and
+            // ghost bound as configured, through every construction path
+            check_2q_quota_grid_for(ctx, &mut out, "C01");
         }
         "C02" => check_e1(ctx, Prop::C02, &mut out, 10000, 200000),
         "C03" => check_e1(ctx, Prop::C03, &mut out, 12000, 250000),
@@ -154,9 +157,9 @@ pub fn replay(prop: &str, engine: &str, case: &Value) -> Result<Option<Violation
             if engine == "ctorcaps" {
                 check_ctor_caps_for(&ctx, &mut o, if prop == "C06" { "C06" } else { "C01" });
             } else {
-                check_2q_quota_grid(&ctx, &mut o);
+                check_2q_quota_grid_for(&ctx, &mut o, if prop == "C01" { "C01" } else { "C08" });
             }
-            Ok(o.violations.first().map(|(_, m)| Violation { prop: if engine == "ctorcaps" { "C01" } else { "C08" }, step: 0, msg: m.clone(), sig: format!("ctor/-/{}", engine) }))
+            Ok(o.violations.first().map(|(_, m)| Violation { prop: if prop == "C06" { "C06" } else if engine == "ctorcaps" || prop == "C01" { "C01" } else { "C08" }, step: 0, msg: m.clone(), sig: format!("ctor/-/{}", engine) }))
         }
         "putresult" => {
             let ctx = Ctx { id: "C12".into(), tier: Tier::Quick, seed: 1, verif_dir: std::env::var("VERIF_DIR").unwrap_or_else(|_| "/verif".into()), known: Default::default(), workers: 1, scale: 1.0 };
